@@ -206,7 +206,7 @@ class State(object):
         self.next_base = base + size + 64
         a = Alloc(aid, size, align, kind, base, self.token, label)
         self.mem[aid] = a
-        if kind == "heap":
+        if kind == "heap" and label == "heap":
             self.heap_live += 1
         return aid
 
@@ -233,7 +233,8 @@ class State(object):
             raise PathEnd("memory-error", "free of non-heap allocation a%d" % aid)
         a.freed = True
         a.cells = {}
-        self.heap_live -= 1
+        if a.label == "heap":
+            self.heap_live -= 1
 
     def addr(self, p):
         if isinstance(p, Ptr):
